@@ -37,7 +37,7 @@ from detsim import disksim
 from detsim.asgi_sim import Conn, HttpMonitor, http_scope
 from detsim.core import HarnessError
 from detsim.simloop import Env, SimLoop
-from detsim.wsgi_sim import FileWrapper, WsgiExchange, make_environ
+from detsim.wsgi_sim import FileWrapper, SendfileWrapper, WsgiExchange, make_environ
 
 PROPERTY = 'C16'
 LEVEL = 'exploration'
@@ -503,6 +503,17 @@ def build_app(cfg, asgi, block):
     if cfg['dir_spelling'] == 'pathlib':
         import pathlib
         d = pathlib.Path(d)
+    if cfg.get('history'):
+        # a start-up history of registrations that the final one must shadow completely
+        # (routes are consulted newest first): same prefix -> a directory outside the tree,
+        # then a more specific prefix -> another directory outside the tree. No decoy has a
+        # fallback: a route with a fallback also matches the bare prefix, which the final
+        # registration (without one) legitimately does not shadow.
+        sub = 'sub' if cfg['view'].rel == 'www' else 'deep'
+        app.add_static_route(cfg['prefix'], TREE.path('outside'))
+        app.add_static_route(cfg['pslash'] + sub, TREE.path('outside/sub'), downloadable=True)
+        if cfg['history'] == 2:
+            app.add_static_route(cfg['prefix'], TREE.path('www2'), downloadable=True)
     app.add_static_route(cfg['prefix'], d, downloadable=cfg['downloadable'],
                          fallback_filename=cfg['fb_arg'])
     return app
@@ -532,7 +543,7 @@ def request_headers(req):
 
 
 def exchange_wsgi(ctx, app, req, knobs, state):
-    fw = FileWrapper if knobs['file_wrapper'] else None
+    fw = (SendfileWrapper if knobs.get('sendfile') else FileWrapper) if knobs['file_wrapper'] else None
     env = make_environ(method=req.method, path=req.dec, headers=request_headers(req), file_wrapper=fw)
     ex = WsgiExchange(ctx)
     resp = Resp()
@@ -997,6 +1008,9 @@ def _run(ctx, server_tz):
     req = gen_request(ch, cfg)
     asgi = bool(ch.draw(2, 'stack'))
     stack = 'asgi' if asgi else 'wsgi'
+    cfg['history'] = [0, 0, 0, 1, 2][ch.draw(5, 'registration_history')]
+    if cfg['history']:
+        ctx.probe('shadowed_earlier_registrations')
     ctx.probe(stack + '_stack')
     knobs = {
         'block': BLOCKS[ch.weighted([2, 2, 3, 2, 2, 1, 2], 'block')],
@@ -1004,6 +1018,7 @@ def _run(ctx, server_tz):
         'faults': ch.draw(4, 'faults_on') != 0,
         'short': ch.draw(3, 'short_mode') == 2,
         'file_wrapper': bool(ch.draw(2, 'file_wrapper')) if not asgi else False,
+        'sendfile': bool(ch.draw(2, 'sendfile_style_wrapper')) if not asgi else False,
         'send_suspends': bool(ch.draw(2, 'send_suspends')) if asgi else False,
         'lost_mode': ['oserror', 'drop'][ch.draw(2, 'lost_mode')] if asgi else 'oserror',
         'predeliver': bool(ch.draw(2, 'predeliver')) if asgi else True,
